@@ -121,7 +121,7 @@ pub fn get_key_string(n: usize) {
     std::mem::forget(data);
 }
 
-//@ harness: c11_get_key_string_n1 tier=thorough timeout=2400 kind=main mem=28 optional=1
+//@ harness: c11_get_key_string_n1 tier=thorough timeout=900 kind=main mem=28 optional=1
 //@ encodes: op::data::get_key (string data, integer key), op::data::get::<char>
 //@ bound: string data of 1 character of symbolic UTF-8 width, integer key = every i64
 //@ cuts: strcount maps
@@ -260,7 +260,7 @@ pub fn split_case(n: usize) {
     std::mem::forget(s);
 }
 
-//@ harness: c11_split_n1 tier=thorough timeout=2400 kind=main mem=28 optional=1
+//@ harness: c11_split_n1 tier=thorough timeout=900 kind=main mem=28 optional=1
 //@ encodes: op::data::split_with_escape
 //@ bound: path of 1 character over the alphabet {a . \ 1}
 #[cfg_attr(kani, kani::proof)]
@@ -271,7 +271,7 @@ pub fn c11_split_n1() {
     split_case(1);
 }
 
-//@ harness: c11_split_n2 tier=thorough timeout=3000 kind=main mem=40 optional=1
+//@ harness: c11_split_n2 tier=thorough timeout=900 kind=main mem=40 optional=1
 //@ encodes: op::data::split_with_escape
 //@ bound: path of 2 characters over the alphabet {a . \ 1} (16 paths; covers "a.", ".a", "\.", "\\", "..")
 #[cfg_attr(kani, kani::proof)]
